@@ -29,11 +29,73 @@ Definition split_chains (chains : list (list Z)) : list (list Z) :=
   let half := (length (hd [] chains) / 2)%nat in
   map (firstn half) chains ++ map (fun c => skipn (length c - half) c) chains.
 
-Inductive rmethod := RRank | RSplit | RIdentity.
+(* ---------------- rank-normalised split R-hat (arviz's default, method="rank") ----------------
+   _rhat_rank: split the chains; z-scale the pooled draws: average rank r (ties share the mean of their ranks),
+   u = (r - 3/8) / (N + 1/4) with N the number of pooled draws, z = Phi^-1(u); bulk = _rhat(z);
+   fold: |x - median(pooled)|, z-scale again, tail = _rhat(z'); result max(bulk, tail).
+   Everything but Phi^-1 is rational and computed here.  Phi^-1 (scipy.stats.norm.ppf) is an ORACLE: the harness records
+   the pairs (u, z) of the actual calls and hands them over as a table; the model computes every u itself, looks it up
+   (so the arguments of Phi^-1 are checked, to 1e-12), requires the table to be increasing, and takes z from it. *)
+Definition rhat_sq_q (chains : list (list Q)) : Q :=
+  let n := qlen (hd [] chains) in
+  let B := n * qvar1 (map qmean chains) in
+  let W := qmean (map qvar1 chains) in
+  (B / W + n - 1) / n.
+
+Definition qcount (p : Q -> bool) (l : list Q) : Q := inject_Z (Z.of_nat (length (filter p l))).
+Definition avg_rank (pool : list Q) (x : Q) : Q :=
+  qcount (fun y => negb (Qle_bool x y)) pool + (qcount (fun y => Qeq_bool y x) pool + 1) / (2 # 1).
+Definition blom (pool : list Q) (x : Q) : Q := (avg_rank pool x - (3 # 8)) / (qlen pool + (1 # 4)).
+
+Definition tol12q : Q := 1 # 1000000000000.
+Fixpoint ppf_lookup (tab : list (Q * Q)) (u : Q) : option Q :=
+  match tab with
+  | [] => None
+  | (u', z) :: r => if Qle_bool (Qabs (u' - u)) tol12q then Some z else ppf_lookup r u
+  end.
+Fixpoint ppf_increasing (tab : list (Q * Q)) : bool :=
+  match tab with
+  | (u1, z1) :: (((u2, z2) :: _) as r) => Qle_bool u1 u2 && Qle_bool z1 z2 && ppf_increasing r
+  | _ => true
+  end.
+
+Fixpoint all_some {A} (l : list (option A)) : option (list A) :=
+  match l with
+  | [] => Some []
+  | Some a :: r => match all_some r with Some t => Some (a :: t) | None => None end
+  | None :: _ => None
+  end.
+
+Definition z_scale (tab : list (Q * Q)) (chains : list (list Q)) : option (list (list Q)) :=
+  let pool := concat chains in
+  all_some (map (fun c => all_some (map (fun x => ppf_lookup tab (blom pool x)) c)) chains).
+
+(* median of a list of rationals that are integers here: the pooled draws *)
+Definition rank_rhat_sq (tab : list (Q * Q)) (chains : list (list Z)) : option Q :=
+  let sp := split_chains chains in
+  let med := median (concat sp) in
+  let spq := map zq sp in
+  let folded := map (map (fun x => Qabs (x - med))) spq in
+  match z_scale tab spq, z_scale tab folded with
+  | Some zb, Some zt =>
+      if ppf_increasing tab then
+        let b := rhat_sq_q zb in let t := rhat_sq_q zt in Some (if Qle_bool b t then t else b)
+      else None
+  | _, _ => None
+  end.
+
+(* RRank carries the table of Phi^-1 values (empty: the numbers are not modelled) *)
+Inductive rmethod := RRank (ppf : list (Q * Q)) | RSplit | RIdentity.
 
 (* None = arviz returns nan (fewer than 4 draws or fewer than 2 chains) or the within-chain variance is zero
    (0/0 or x/0 in floating point: not compared) *)
 Definition rhat_sq_opt (m : rmethod) (chains : list (list Z)) : option Q :=
   if ((length (hd [] chains) <? 4) || (length chains <? 2))%nat then None
-  else let cs := match m with RSplit => split_chains chains | _ => chains end in
-       if Qeq_bool (rhat_W cs) 0 then None else Some (rhat_sq cs).
+  else match m with
+       | RRank tab => match rank_rhat_sq tab chains with
+                      | Some q => Some q
+                      | None => Some (-1 # 1)     (* table incomplete / not increasing: matches no observed value *)
+                      end
+       | _ => let cs := match m with RSplit => split_chains chains | _ => chains end in
+              if Qeq_bool (rhat_W cs) 0 then None else Some (rhat_sq cs)
+       end.
